@@ -632,7 +632,7 @@ func CoherentSchema(t *rapid.T, o SchemaOpts) *SchemaSpec {
 		nw := rapid.IntRange(58, 72).Draw(t, "wide-n")
 
 		for j := 0; j < nw; j++ {
-			name := fmt.Sprintf("%s%02d", rapid.SampledFrom([]string{"w", "w", "a", "z"}).Draw(t, "wide-prefix"), j)
+			name := fmt.Sprintf("%s%02d", rapid.SampledFrom([]string{"w", "w", "a", "z", "a-rather-long-member-name-"}).Draw(t, "wide-prefix"), j)
 			if used[i][name] {
 				continue
 			}
